@@ -60,6 +60,10 @@ impl Definition {
             }
         }
 
+        self.contains_usage(tree, path, pos)
+    }
+
+    pub fn contains_usage(&self, tree: &ParseTree, path: &Path, pos: LineCol) -> bool {
         self.usages
             .iter()
             .any(|usage| span_contains(usage.span, tree, path, pos))
@@ -189,7 +193,17 @@ impl Analysis {
         let path = path.into();
         self.definitions
             .iter()
-            .filter(|(ty, definition)| filter(ty) && definition.contains(&self.tree, &path, pos))
+            .filter(|(ty, definition)| {
+                filter(ty)
+                    && match ty {
+                        // The location of an imported file is the file as a whole. A position inside that file
+                        // refers to the symbols that are located there, not to the file itself.
+                        DefinitionType::Filename(_) => {
+                            definition.contains_usage(&self.tree, &path, pos)
+                        }
+                        DefinitionType::Symbol(_) => definition.contains(&self.tree, &path, pos),
+                    }
+            })
             .collect()
     }
 
